@@ -372,7 +372,8 @@ theorem hasKey_lowered_append (k : Bytes) (acc : Headers) (n v : Bytes) :
 theorem parseLeader_lines (hs : Headers) (acc : Headers) (body : Bytes) (fuel : Nat) (hf : hs.length < fuel)
     (hn : ∀ h ∈ hs, 10 ∉ h.1 ∧ 58 ∉ h.1) (hv : ∀ h ∈ hs, 10 ∉ h.2)
     (hd : ∀ h ∈ hs, hasKey (lower h.1) acc = false) (hnd : (hs.map (fun h => lower h.1)).Nodup)
-    (few : acc.length + hs.length ≤ 100) :
+    (few : acc.length + hs.length ≤ Gen.maxHeaders)
+    (short : ∀ h ∈ hs, (packHeader h.1 h.2).length ≤ Gen.maxLineSize) :
     parseLeader fuel ((hs.map (fun h => packHeader h.1 h.2)).flatMap (· ++ crlf) ++ crlf ++ body) acc =
       .ok (acc ++ lowered hs, body) := by
   induction hs generalizing acc fuel with
@@ -383,12 +384,16 @@ theorem parseLeader_lines (hs : Headers) (acc : Headers) (body : Bytes) (fuel : 
       simp only [List.map_nil, List.flatMap_nil, List.nil_append, parseLeader, lowered, List.append_nil]
       have := takeLine_crlf [] body (by simp)
       rw [List.nil_append] at this
-      rw [this]; simp
+      rw [this]
+      have h0 : ¬ (([] : Bytes).length > Gen.maxLineSize) := by simp
+      simp [h0]
   | cons h hs ih =>
     cases fuel with
     | zero => omega
     | succ f =>
       obtain ⟨hn1, hn2⟩ := hn h (List.mem_cons_self ..)
+      have hshort : ¬ ((packHeader h.1 h.2).length > Gen.maxLineSize) := by
+        have := short h (List.mem_cons_self ..); omega
       have hv1 := hv h (List.mem_cons_self ..)
       have hline : 10 ∉ packHeader h.1 h.2 := by
         unfold packHeader
@@ -401,13 +406,13 @@ theorem parseLeader_lines (hs : Headers) (acc : Headers) (body : Bytes) (fuel : 
       simp only [List.map_cons, List.flatMap_cons, List.append_assoc, parseLeader]
       rw [← List.append_assoc (packHeader h.1 h.2) crlf, takeLine_crlf _ _ hline]
       have hne : (packHeader h.1 h.2).isEmpty = false := by simp [packHeader]
-      simp only [hne, Bool.false_eq_true, ↓reduceIte]
+      simp only [hshort, hne, Bool.false_eq_true, ↓reduceIte]
       rw [split_packHeader _ _ hn2]
       simp only [lower_title]
       have hk := hd h (List.mem_cons_self ..)
       rw [setKey_of_not_hasKey _ _ _ hk]
-      have few' : acc.length + (hs.length + 1) ≤ 100 := by simpa using few
-      have hlen : ¬ (acc ++ [(lower h.1, h.2)]).length > 100 := by
+      have few' : acc.length + (hs.length + 1) ≤ Gen.maxHeaders := by simpa using few
+      have hlen : ¬ (acc ++ [(lower h.1, h.2)]).length > Gen.maxHeaders := by
         simp only [List.length_append, List.length_cons, List.length_nil]; omega
       rw [if_neg hlen]
       have hnd' := List.nodup_cons.mp hnd
@@ -420,6 +425,7 @@ theorem parseLeader_lines (hs : Headers) (acc : Headers) (body : Bytes) (fuel : 
             intro e; exact hnd'.1 (List.mem_map.mpr ⟨x, hx, e.symm⟩)
           simpa using this)
         hnd'.2 (by simp only [List.length_append, List.length_cons, List.length_nil]; omega)
+        (fun x hx => short x (List.mem_cons_of_mem _ hx))
       rw [List.append_assoc] at this
       rw [this]
       simp [lowered]
@@ -636,7 +642,9 @@ structure WireOk (m p : Bytes) (qs : List (Bytes × Bytes)) (hs : Headers) (body
   names : ∀ h ∈ hs, 10 ∉ h.1 ∧ 58 ∉ h.1
   values : ∀ h ∈ hs, 10 ∉ h.2
   distinct : (hs.map (fun h => lower h.1)).Nodup
-  few : hs.length ≤ 100
+  few : hs.length ≤ Gen.maxHeaders
+  short : (m ++ [32] ++ target p qs ++ [32] ++ Gen.requestVersion).length ≤ Gen.maxLineSize ∧
+    ∀ h ∈ hs, (packHeader h.1 h.2).length ≤ Gen.maxLineSize
   noTe : hasKey (lit "transfer-encoding") hs = false
   length : match getKey (lit "content-length") hs with
     | none => body = []
@@ -672,7 +680,9 @@ theorem recover_wire (m p : Bytes) (qs : List (Bytes × Bytes)) (hs : Headers) (
     cases m with
     | nil => exact absurd rfl hmne
     | cons _ _ => rfl
-  simp only [hne, Bool.false_eq_true, ↓reduceIte]
+  have hsl : ¬ ((m ++ [32] ++ target p qs ++ [32] ++ Gen.requestVersion).length > Gen.maxLineSize) := by
+    have := w.short.1; omega
+  simp only [hsl, hne, Bool.false_eq_true, ↓reduceIte]
   rw [words_three m (target p qs) Gen.requestVersion (fun b hb => (hmb b hb).1) (fun b hb => (htb b hb).1)
     (fun b hb => (v4 b hb).1) hmne htne v3]
   simp only [List.getD_cons_zero, List.getD_cons_succ, v1, v2, Bool.not_true, Bool.false_eq_true, ↓reduceIte]
@@ -683,7 +693,7 @@ theorem recover_wire (m p : Bytes) (qs : List (Bytes × Bytes)) (hs : Headers) (
   rw [parseLeader_lines hs [] (body ++ tail) _ (by
       have := flatMap_crlf_length (hs.map (fun h => packHeader h.1 h.2))
       simp only [List.length_map, List.length_append] at this ⊢
-      omega) w.names w.values (by intro h _; rfl) w.distinct (by simpa using w.few)]
+      omega) w.names w.values (by intro h _; rfl) w.distinct (by simpa using w.few) w.short.2]
   simp only [List.nil_append]
   have hte : getKey (lit "transfer-encoding") (lowered hs) = none := by
     rw [getKey_lowered]; exact getKey_of_not_hasKey _ _ w.noTe
